@@ -271,3 +271,20 @@ def run_case(case, r):
     k = 0
     r.check(np.array_equal(np.asarray(VC[k]), V[k] + 0.5) and isinstance(VC[k], darsia.VoxelCenter), f"C01/typed/getitem/dim={dim}", "VoxelCenterArray[k] is the k-th voxel centre (halo: negative index)", got=np.asarray(VC[k]), want=V[k] + 0.5)
     r.check(np.array_equal(np.asarray(VA[k]), V[k]) and isinstance(VA[k], darsia.Voxel), f"C01/typed/getitem/dim={dim}", "VoxelArray[k] is the k-th voxel")
+    # sub-batches selected with an index array or a boolean mask keep their point type and
+    # convert like the corresponding rows of the full batch
+    inside = np.all((V >= 0) & (V < np.array(shape)), axis=1)
+    for kname, key in (("index-array", np.array([0, len(V) - 1, len(V) // 2])), ("mask", inside)):
+        sub = V[key]
+        for tname, arr, cls, vals, convert in (
+            ("voxel", VA, darsia.VoxelArray, sub, lambda x: x.to_coordinate(cs)),
+            ("voxelcenter", VC, darsia.VoxelCenterArray, sub + 0.5, lambda x: x.to_coordinate(cs)),
+            ("coordinate", CA, darsia.CoordinateArray, ref_coord(sub + 0.5), lambda x: x.to_voxel(cs)),
+        ):
+            got = arr[key]
+            ok = type(got) is cls and (np.array_equal(np.asarray(got), vals) if tname != "coordinate" else close(got, vals))
+            if ok:
+                full = np.asarray(convert(arr), dtype=float)[key]
+                part = np.asarray(convert(got), dtype=float)
+                ok = part.shape == full.shape and np.array_equal(part, full)
+            r.check(ok, f"C01/typed/getitem-{kname}/{tname}/dim={dim}", "a sub-batch selected by index array / mask keeps its point type and converts like the same rows of the full batch", type=type(got).__name__)
